@@ -2,6 +2,15 @@
 """Regenerate the seeded-change table of DESIGN.md section 10 from /verif/seeded/*/meta.json."""
 import json, glob, os, re
 NOTES = {
+ "C05b-resuspend-skips-main": "missed at first by the quick tier (two conditional auxes on one frame were thorough-only); a same-frame two-aux subset is now in quick C05/C10/C07",
+ "C10b-resuspend-skips-main": "same change as C05b, seeded independently; see there",
+ "C12b-raze-first-ignores-razeable": "missed at first: no frame held a static insular clone next to reared ones; static+reared family added",
+ "C20b-tracts-before-checkenter": "missed at first: no marker-guarded transition targeted a frame with an entry guard; guarded-marker family added",
+ "C08b-start-readied-skips-check": "C08 has no ready/start sequences; the control/status machine BFS of C04 catches it",
+ "C13-over-inode-cache-by-name": "missed at first: clone frames never shared a name with their main frame chain; name-collision family added",
+ "C28-refresh-only-on-whole-send": "missed at first: server-side sends were never partial; slow-reader configurations added",
+ "C15-framer-roster-by-clause-order": "missed at first: framer scaffolds only used be active|inactive; be x in roster families added",
+
  "C06-suspended-branch-exit": "missed at first: no family started a framer in a non-primary branch; `first` variants added to the forest family",
  "C10-reactivate-main-outline": "missed by C10 at first (chain-only family); fork family added; C05 caught it once `first` variants existed",
  "C04-start-desire-after-enter": "missed at first: bids only targeted other framers; self-bid family added",
